@@ -337,7 +337,7 @@ pub fn get_best_move_entry(
         return Some((moves.first().copied(), 0, true));
     }
 
-    let mut killer_moves = [None; 32];
+    let mut killer_moves = [None; 256];
     let mut best_move = None;
     let mut best_score = Score::MIN + 1;
 
@@ -466,7 +466,12 @@ pub fn get_best_move_until_stop(
     // A cached result may be deeper than the requested limit
     let starting_depth = max_depth.map_or(starting_depth, |d| starting_depth.min(d.max(1)));
 
-    for depth in starting_depth.. {
+    for depth in starting_depth..=u8::MAX {
+        // A cached root result is returned without polling the flag
+        if found_move.is_some() && !continue_running.load(Relaxed) {
+            return found_move;
+        }
+
         let Some((best_move, best_score, is_only_move)) =
             get_best_move_entry(game.clone(), continue_running, depth, table, &mut history)
         else {
@@ -513,5 +518,5 @@ pub fn get_best_move_until_stop(
         }
     }
 
-    unreachable!()
+    found_move
 }
